@@ -9,7 +9,7 @@
 From Coq Require Import String.
 From Coq Require Import List NArith ZArith Bool.
 From HS Require Import Base.Prelude Model.Value Model.Escape Model.Version Model.Json Model.ZincDump Model.ZincParse.
-From HS Require Import Proofs.EscapeP Proofs.ZincParseP Proofs.ZincDumpP.
+From HS Require Import Proofs.EscapeP Proofs.ZincParseP Proofs.ZincDumpP Proofs.ZincNumP Proofs.ZincDateP Proofs.ZincListP Proofs.ZincGridP.
 Import ListNotations.
 Open Scope N_scope.
 
@@ -58,6 +58,18 @@ Proof. exact zdump_grid_layout. Qed.
 Theorem C04_scalar_clean : forall f p v t, wfv f v -> zdump f p v = Ok t -> clean t.
 Proof. exact zdump_clean. Qed.
 (* non-vacuity: a grid with strings full of metacharacters, a list, a reference with display name satisfies the hypotheses *)
+(* CONFORMANCE AND DENOTATION for whole grids: for every metadata-free 3.0 grid over strings, URIs, numbers, dates,
+   times, letter scalars, plain references and lists of those (zcell n), what the writer emits is accepted by the grid
+   rule of the grammar and denotes exactly the grid that was written (the grammar here is the model of hszinc's own
+   reader; conformance to the Haystack description is judged by the independent reader of the harness) *)
+Theorem C04_grid_conforms : forall n names rows rts,
+  names <> [] -> Forall colname names -> NoDup names -> Forall2 (grid_cells_ok n names) rows rts ->
+  exists txt, (forall f, zdump_grid (S (S (n + f))) V30 [] (map (fun x => (x, [])) names) (map (fun cells => combine names cells) rows) = Ok txt) /\
+              (forall k, p_grid (S (S (n + k))) true txt = Some (Ok (plain_grid names rows), [])).
+Proof.
+  intros n names rows rts H1 H2 H3 H4. exists (plain_text names rts). exact (grid_roundtrip n names rows rts H1 H2 H3 H4).
+Qed.
+
 Example C04_layout_applies :
   let rows := [[(s_ "a", VStr [34; 10; 44]); (s_ "b", VRef (s_ "r-1") (Some [36; 10]))]; [(s_ "b", VList [VMarker; VUri [96; 10]])]] in
   let cols := [(s_ "a", []); (s_ "b", [(s_ "dis", VStr [10])])] in
@@ -73,6 +85,7 @@ Proof.
   - eexists. vm_compute. reflexivity.
 Qed.
 
+Print Assumptions C04_grid_conforms.
 Print Assumptions C04_layout.
 Print Assumptions C04_scalar_clean.
 Print Assumptions C04_header.
